@@ -28,7 +28,7 @@
                      data set fits the counters (n <= u32::MAX, total length <= usize::MAX) *)
 From Coq Require Import List Arith Bool NArith ZArith Lia.
 From LMBase Require Import Res ListX.
-From LMSampler Require Import SamplerModel SamplerLemmas SamplerSpec SamplerProofs SamplerRun.
+From LMSampler Require Import SamplerModel SamplerLemmas SamplerSpec SamplerProofs SamplerRun SamplerOops.
 Import ListNotations.
 
 (* ------------------------------------------------------------------ main theorem *)
@@ -113,6 +113,28 @@ Theorem sampler_no_panic :
       new_ K W data wraps m initial inertia patience starts0 seeds0 = Ok (c, st0) /\
       (choices_ok c st0 chs -> exists t, run c st0 chs = Ok t).
 Proof. exact new_run_progress. Qed.
+
+(* the closed form for the one-occurrence-per-sequence mode: at least two sequences, all
+   longer than the width -- then EVERY choice list an RNG can produce (hold-out in range,
+   new start inside its sequence, no weight overflow; conditions on the data set alone, no
+   reference to the states met) runs to its end without a panic.  The state-dependent premise
+   of sampler_no_panic ("the hold-out leaves an active sequence") is discharged by the
+   invariant: in Oops mode every sequence stays active.  (That the choices computed from the
+   generator's words by the float model meet these conditions, except for the weight overflow,
+   is C16F.sampler_no_panic_oops_stream.) *)
+Theorem sampler_no_panic_oops :
+  forall K W data wraps initial inertia patience starts0 seeds0 chs,
+    data_ok K W data ->
+    Forall (fun s => (W < length s)%nat) data ->
+    (2 <= length data)%nat ->
+    Forall (fun wr => (W <= wr)%nat) wraps ->
+    starts_in_range W data starts0 = true ->
+    Forall (oops_choice_ok W data) chs ->
+    (N.of_nat (length chs) <= usize_max)%N ->
+    exists c st0 t,
+      new_ K W data wraps Oops initial inertia patience starts0 seeds0 = Ok (c, st0) /\
+      run c st0 chs = Ok t /\ length t = length chs.
+Proof. exact new_run_oops_progress. Qed.
 
 (* background() (Background::from_counts(..).unwrap()) panics exactly on an empty active set *)
 Theorem background_panics_iff_empty_active_set :
@@ -244,13 +266,16 @@ Qed.
 
 (* ------------------------------------------------------------------ determinism *)
 
-(* The trace is a function of data, parameters and the choice list, and the trace of the
-   first calls does not depend on later choices.  (That the implementation's choices are
-   a function of the seed is checked on every run: rerun=same.) *)
-Theorem sampler_deterministic :
-  forall c st chs1 chs2, chs1 = chs2 -> run c st chs1 = run c st chs2.
-Proof. intros c st chs1 chs2 ->. reflexivity. Qed.
-
+(* "Two runs with the same data, parameters and seed produce identical traces."  In this file
+   the generator is a choice list, and `run` is a Gallina function of (data, parameters,
+   choices): that alone says nothing about the seed.  The statement with content is
+   C16F.sampler_deterministic: the trace of k calls is a function of the WORD STREAM the
+   generator hands out (every hold-out, every new start and every initial start is computed
+   from the words, following rand 0.8.8), it is the run of the choice list that stream
+   determines, and it depends only on the words consumed.  What remains checked and not
+   proved: the generator itself (StdRng: seed -> words) and that the implementation consumes
+   nothing but these words (rerun=same and the rw= replay of every call in the driver).
+   Here: the trace of the first calls does not depend on later choices. *)
 Theorem sampler_trace_prefix :
   forall c st chs1 chs2 t,
     run c st (chs1 ++ chs2) = Ok t ->
@@ -292,6 +317,27 @@ Check check_C16_sound :
 
 Check sampler_no_underflow :
   forall c st chs, WF c -> seed_ok c -> Inv c st -> allowed (run c st chs).
+
+Check sampler_no_panic_oops :
+  forall K W data wraps initial inertia patience starts0 seeds0 chs,
+    data_ok K W data ->
+    Forall (fun s => (W < length s)%nat) data ->
+    (2 <= length data)%nat ->
+    Forall (fun wr => (W <= wr)%nat) wraps ->
+    starts_in_range W data starts0 = true ->
+    Forall (oops_choice_ok W data) chs ->
+    (N.of_nat (length chs) <= usize_max)%N ->
+    exists c st0 t,
+      new_ K W data wraps Oops initial inertia patience starts0 seeds0 = Ok (c, st0) /\
+      run c st0 chs = Ok t /\ length t = length chs.
+Check ((fun _ _ _ => eq_refl) : forall W data ch,
+  oops_choice_ok W data ch =
+  ((ch_z ch < length data)%nat /\
+   match ch_upd ch with
+   | UKeep => True
+   | UNew s => (s + W <= length (nth (ch_z ch) data []))%nat
+   | UOverflow => False
+   end)).
 
 (* the definitions the statements rest on, pinned against silent weakening *)
 Check (eq_refl : @allowed nat (Panic 12) = (5 <= 12 <= 9)%nat).
@@ -447,4 +493,15 @@ Proof.
   - intros st' oit E. vm_compute in E. inversion E; subst; clear E. split; [|intros; exact I].
     right. cbn. repeat split; try lia; try discriminate.
     exists 1%nat. repeat split; try lia.
+Qed.
+
+(* sampler_no_panic_oops: the premises are satisfiable (the Oops run above), and "at least two
+   sequences" is needed (ex_single_sequence_panics: one sequence, Panic 7 at the first call) *)
+Example ex_oops_choices_ok :
+  data_ok 5 2 ex_data /\ Forall (fun s => (2 < length s)%nat) ex_data /\ (2 <= length ex_data)%nat /\
+  Forall (oops_choice_ok 2 ex_data)
+         [mkChoice 1 (UNew 3) true; mkChoice 0 UKeep true; mkChoice 2 (UNew 0) false].
+Proof.
+  split; [exact ex_data_ok|]. split; [repeat constructor|]. split; [cbn; lia|].
+  repeat constructor; cbn; lia.
 Qed.
